@@ -17,6 +17,18 @@ except ImportError:          # pragma: no cover
     xr = None
 
 MAXDEPTH = 40
+# class name -> function(obj) giving what counts as the object's state
+HOOKS = {}
+
+
+def _strategy_state(x):
+    # constructor arguments only: scratch attributes a strategy keeps between
+    # fits ('reusable', not 'unchanged') are not part of its identity
+    return {'args': dict(x._dict)}
+
+
+HOOKS['NmpfitStrategy'] = _strategy_state
+HOOKS['LeastSquaresScipyStrategy'] = _strategy_state
 
 
 def _arr(a):
@@ -82,6 +94,9 @@ def plain(x, depth=0, memo=None):
         return {'__class__': x.__name__}
     if isinstance(x, BaseException):
         return {'__exc__': type(x).__name__, 'msg': str(x)}
+    if type(x).__name__ in HOOKS:
+        return {'__obj__': type(x).__name__,
+                'canon': plain(HOOKS[type(x).__name__](x), depth + 1)}
     if hasattr(x, '__canon__'):
         return {'__obj__': type(x).__name__, 'canon': plain(x.__canon__(),
                                                             depth + 1)}
